@@ -147,10 +147,13 @@ def sliding_window_view(arr, window_shape, step, dilation=None):
         (int(step),) * len(window_shape) if isinstance(step, Integral) else tuple(step)
     )
 
-    if not all(isinstance(i, Integral) and i > 0 for i in step):
+    if len(step) != len(window_shape) or not all(
+        isinstance(i, Integral) and i > 0 for i in step
+    ):
         raise ValueError(
             f"`step` must be a positive integer or a sequence of positive "
-            f"integers, got: {step}"
+            f"integers with the same length as `window_shape` ({window_shape}), "
+            f"got: {step}"
         )
 
     if any(i > j for i, j in zip(window_shape[::-1], arr.shape[::-1])):
